@@ -74,7 +74,16 @@ func (details *PersonDetails) parseData(node tlv.TlvNode) error {
 		return fmt.Errorf("[parseData] ParseTags error: %w", err)
 	}
 
+	// NB a tag may only be processed once, otherwise repeated tag-list entries re-walk all
+	//    'other name' objects each time (cubic time / quadratic memory for a crafted file)
+	seenTags := make(map[tlv.TlvTag]bool)
+
 	for _, tag := range tagList {
+		if seenTags[tag] {
+			continue
+		}
+		seenTags[tag] = true
+
 		if err := details.processTag(tag, node); err != nil {
 			return fmt.Errorf("[parseData] processTag error: %w", err)
 		}
